@@ -143,6 +143,22 @@ def lay1(ctx, c):
             c.finding("translate_statements:origin-choice", "for ORG $2000 / equates / ORG $1000 / code the origin is %r" % (og,),
                       "the origin/name scan, evaluated for `ORG $2000`, a statement without code, `ORG $1000`, code, reports the origin %r: the code is laid out at $1000, so the image "
                       "would be loaded at another address than the listing shows" % (og,), repo.loc(fn, pos["origin/name"][1]))
+    # the origin is where the image is loaded: it comes from ORG, not from END (whose operand is the entry point) or any other statement
+    for n_ in ast.walk(flat):
+        if isinstance(n_, ast.If) and any(isinstance(x, ast.Assign) and any(U(t_) == "self.origin" for t_ in x.targets) for b_ in n_.body for x in ast.walk(b_)):
+            if re.search(r"'END'|\"END\"|is_end\b|\.mnemonic (==|in)", U(n_.test)) and "ORG" not in U(n_.test) and "is_origin" not in U(n_.test):
+                c.finding("translate_statements:origin-source", "the origin is taken from another statement than ORG (%s)" % U(n_.test)[:50],
+                          "translate_statements sets self.origin under `%s`: the image still begins with the first statement after ORG, so the load address reported (and written into "
+                          "the cassette / disk headers) is no longer where the bytes belong" % U(n_.test)[:70], repo.loc(fn, n_))
+    # the program's name is the NAM operand as written: the parsed value has lost a leading < > or # (Value.create_from_str strips addressing prefixes)
+    for n_ in ast.walk(flat):
+        if isinstance(n_, ast.Assign) and any(U(t_) == "self.name" for t_ in n_.targets) and isinstance(n_.value, (ast.Attribute, ast.Call)) and "operand" in U(n_.value):
+            if re.fullmatch(r"\w+\.operand\.operand_string", U(n_.value)):
+                c.ok("translate_statements:name-source", "the NAM operand as written", repo.loc(fn, n_))
+            elif re.search(r"\.operand\.value\b|\.ascii\(\)|\.hex\(\)|original_string", U(n_.value)):
+                c.finding("translate_statements:name-source", "the name is taken from the parsed value (%s)" % U(n_.value)[:40],
+                          "translate_statements sets self.name from `%s`: the value classes strip a leading < > or # and keep only what parses, so a NAM operand such as >GAME or #1 is stored "
+                          "under another name than the one written" % U(n_.value)[:60], repo.loc(fn, n_))
     # the fix-up pass hands each statement its own position: a position looked up by value finds the first EQUAL statement
     # (Statement defines __eq__ over a few fields), which is another statement whenever two lines read alike
     def position_source(loop, idx):
@@ -462,6 +478,10 @@ def exp1(ctx, c):
     for n in ast.walk(fn.node):
         if isinstance(n, ast.Assign) and isinstance(n.targets[0], ast.Name) and re.fullmatch(r"self\.(left|right)\.int", U(n.value)):
             binds[n.targets[0].id] = U(n.value).split(".")[1]
+        if isinstance(n, ast.Assign) and isinstance(n.targets[0], ast.Tuple) and isinstance(n.value, ast.Tuple) and len(n.targets[0].elts) == len(n.value.elts):
+            for e_, v_ in zip(n.targets[0].elts, n.value.elts):
+                if isinstance(e_, ast.Name) and re.fullmatch(r"self\.(left|right)\.int", U(v_)):
+                    binds[e_.id] = U(v_).split(".")[1]
     arms = {}
     for n in ast.walk(fn.node):
         if isinstance(n, ast.If) and isinstance(n.test, ast.Compare) and U(n.test.left) == "self.operation" and isinstance(n.test.ops[0], ast.Eq):
@@ -486,6 +506,9 @@ def exp1(ctx, c):
             continue
         t, l, r, node = arms[op]
         okop = t in want if isinstance(want, tuple) else t is want
+        if {l, r} - {"left", "right"}:
+            c.undecided("ExpressionValue.resolve:%s" % op, "operands-of-the-arm-not-traced-to-left/right", "%s %s %s" % (l, t.__name__, r), repo.loc(fn, node))
+            continue
         c.check(okop and (l, r) == ("left", "right"), "ExpressionValue.resolve:%s" % op, "left %s right" % op, "computes %s %s %s" % (l, t.__name__, r),
                 "for operator %s ExpressionValue.resolve computes %s %s %s" % (op, l, t.__name__, r), repo.loc(fn, node))
     c.floor("operator arms", len(arms), 4)
@@ -542,6 +565,16 @@ def exp1(ctx, c):
                       "rendered in one byte and the instruction that uses it changes size when the program is moved" % (U(odd)[:70], dict(major)), repo.loc(cao, odd))
         elif ctor_calls:
             c.ok("calculate_address_offset:arms-agree", "every operator arm builds its result with the same width and mode", repo.loc(cao, cao.node))
+    # the result of an expression has the width its value needs: a width stored on the expression (the instruction's 16-bit hint) is right for an immediate operand and
+    # wrong for the same expression used as an index offset, where it puts two bytes behind an 8-bit post byte
+    rsv = repo.cls("ExpressionValue").methods.get("resolve")
+    if rsv is not None:
+        pinned = [x for x in ast.walk(rsv.node) if isinstance(x, ast.Call) and U(x.func).endswith("NumericValue") for k in x.keywords
+                  if k.arg == "size_hint" and re.fullmatch(r"self\.\w+", U(k.value))]
+        if pinned:
+            c.finding("ExpressionValue.resolve:stored-width", "the result is given a width stored on the expression (%s)" % U(pinned[0])[:50],
+                      "ExpressionValue.resolve builds its result as `%s`: the width comes from where the expression was created (the instruction's 16-bit hint), not from the value, so "
+                      "`LDX P+Q,X` with small constants emits a two-byte offset behind the 8-bit post byte" % U(pinned[0])[:70], repo.loc(rsv, pinned[0]))
     # `cond and a or b` is not `a if cond else b`: it yields b whenever a is falsy - and a statement index or a constant can be 0 (a label on the first line, FIELD EQU 0)
     for m_ in repo.cls("ExpressionValue").methods.values():
         for x in ast.walk(m_.node):
@@ -779,6 +812,12 @@ def dir1(ctx, c):
             arms_open = str(e_)
             break
         rets_m = [o for o in outs_m if o.kind == "return"]
+        if r_ is not None and m_ == "RMB":
+            zr = [o for o in outs_m if o.kind == "raise" and any(re.fullmatch(r"(self\.value|count\w*|reserved\w*)(\.int)?( == 0| != 0| > 0| < 1)?", strip_ver(a)) for a, _ in o.path.conds)]
+            if zr:
+                c.finding("PseudoOperand.translate:RMB:zero", "a count of 0 is refused",
+                          "PseudoOperand.translate raises for RMB under a test on the truth / zero-ness of the count (%s): `RMB 0` reserves no bytes and is a legal statement"
+                          % [strip_ver(a) for a, _ in zr[0].path.conds][-1:], where)
         if r_ is None:
             default = rets_m[0] if rets_m else None
         elif rets_m:
@@ -800,6 +839,11 @@ def dir1(ctx, c):
                     kw = o.value.kw if isinstance(o.value, Ctor) else {}
                     emits = any(k in kw for k in ("op_code", "post_byte", "additional")) or "size" in kw
                     c.check(not emits, site, "emits no bytes", "emits %s" % sorted(kw), "%s must emit no bytes, its arm returns %r" % (m, o.value), where)
+                    if "address" in kw and m != "ORG":
+                        # a statement that carries an address of its own is an origin to the layout pass (set_address keeps it and continues from there)
+                        c.finding(site + ":address", "%s returns a package with an address of its own" % m,
+                                  "PseudoOperand.translate gives %s a CodePackage(address=...): Statement.set_address treats every statement that already has an address as an ORG, so the "
+                                  "location counter jumps to that value and every later statement and label is placed from there" % m, where)
             else:
                 kw = default.value.kw if default is not None and isinstance(default.value, Ctor) else None
                 c.check(kw == {}, site, "falls to the empty CodePackage", "default arm returns %r" % (default.value if default else None),
@@ -900,7 +944,8 @@ def dir1(ctx, c):
                       "to the data emitted" % (cls, loose[0]), repo.loc(f, f.node))
         elif ctors and all(x == "NumericValue" for x in ctors):
             c.ok("%s:element-type" % cls, "elements are NumericValue literals", repo.loc(f, f.node))
-        seps = [try_fold(n.args[0]) for n in ast.walk(f.node) if isinstance(n, ast.Call) and U(n.func).endswith(".split") and n.args]
+        seps = [try_fold(n.args[0], envc) for n in ast.walk(f.node) if isinstance(n, ast.Call) and U(n.func).endswith(".split") and n.args]
+        seps = [] if any(x is None for x in seps) else seps
         if not seps:
             c.undecided("%s:separator" % cls, "split-not-recognised", "", repo.loc(f, f.node))
         else:
@@ -961,6 +1006,7 @@ def dir1(ctx, c):
     sv_bad = None
     sv_und = None
     for text, want in (('"AB"', [0x41, 0x42]), ('" A "', [0x20, 0x41, 0x20]), ("/X/", [0x58]), ('""', []), ("'it''", None), ('"AB', None), ("|a b|", [0x61, 0x20, 0x62]),
+                       ("XHELLOX", [0x48, 0x45, 0x4C, 0x4C, 0x4F]), ("1AB1", [0x41, 0x42]),
                        ('"A\\nB"', [0x41, 0x5C, 0x6E, 0x42]), ('"\\\\"', [0x5C, 0x5C]), ('"50%"', [0x35, 0x30, 0x25]), ('"{x}"', [0x7B, 0x78, 0x7D])):
         try:
             out_ = _fcs(ctx, "StringValue", {"value": text})
@@ -1275,6 +1321,14 @@ def inc1(ctx, c):
     else:
         c.undecided("process_mnemonics:path", "SourceFile-call-not-found", "", where)
     rec = [n for n in ast.walk(loop) if isinstance(n, ast.Call) and U(n.func).endswith("process_mnemonics")]
+    # ... and always: whether the included text has INCLUDEs of its own is found out by parsing it, not by looking for a word in its lines
+    for r_ in rec:
+        encl = [i_ for i_ in ast.walk(loop) if isinstance(i_, ast.If) and any(x is r_ for b_ in i_.body for x in ast.walk(b_))]
+        textual = [i_ for i_ in encl if re.search(r"'INCLUDE'|\"INCLUDE\"|in line|get_buffer\(\)|readlines|\.upper\(\)", U(i_.test)) and "get_include_filename" not in U(i_.test)]
+        if textual:
+            c.finding("process_mnemonics:recursion-conditional", "nested INCLUDEs are expanded only when `%s`" % U(textual[0].test)[:50],
+                      "process_mnemonics calls itself for the included file only under `%s`: an included file whose own INCLUDE is spelled in another letter case (or otherwise escapes the "
+                      "test) is spliced in unexpanded" % U(textual[0].test)[:70], repo.loc(fn, textual[0]))
     dropped = [n for n in ast.walk(loop) if isinstance(n, ast.Expr) and n.value in rec]
     if dropped:
         c.finding("process_mnemonics:recursion-result", "the result of the recursive expansion is discarded",
@@ -1357,6 +1411,13 @@ def inc1(ctx, c):
     pp = repo.method("Program", "parse")
     for lp in [n for n in ast.walk(pp.node) if isinstance(n, ast.For)]:
         skips = [x for x in ast.walk(lp) if isinstance(x, (ast.Continue, ast.Break))]
+        # `if s.is_empty or s.is_comment_only: continue` is the same filter written as a guard clause
+        benign = []
+        for i_ in [n_ for n_ in ast.walk(lp) if isinstance(n_, ast.If) and not n_.orelse and len(n_.body) == 1 and isinstance(n_.body[0], ast.Continue)]:
+            disj = i_.test.values if isinstance(i_.test, ast.BoolOp) and isinstance(i_.test.op, ast.Or) else [i_.test]
+            if all(re.fullmatch(r"\w+\.(is_empty|is_comment_only)", U(v_)) for v_ in disj):
+                benign.append(i_.body[0])
+        skips = [x for x in skips if not any(x is b_ for b_ in benign)]
         guards = []
         for x in ast.walk(lp):
             if isinstance(x, ast.If) and any(isinstance(y, ast.Call) and isinstance(y.func, ast.Attribute) and y.func.attr == "append" for b in x.body for y in ast.walk(b)):
@@ -1489,6 +1550,14 @@ def txt1(ctx, c):
         c.undecided("parse_line:mnemonic-case", "shape-not-recognised", "", wp)
     c.shape(re.search(r"for (\w+) in INSTRUCTIONS if \1\.mnemonic == ", t) is not None or re.search(r"for (\w+) in INSTRUCTIONS:\s+if \1\.mnemonic == ", t) is not None,
             "parse_line:lookup", "first table row with that mnemonic", "instruction lookup not recognised", wp)
+    # everything that depends on WHICH instruction a line holds is decided from the looked-up instruction (or the upper-cased mnemonic), never from the mnemonic as typed
+    raw_cmp = [n for n in ast.walk(pl_f0) if isinstance(n, ast.Compare) and len(n.ops) == 1 and isinstance(n.ops[0], (ast.Eq, ast.NotEq, ast.In, ast.NotIn))
+               and re.search(r"group\('mnemonic'\)$", U(n.left)) and not any(isinstance(x, ast.Call) and isinstance(x.func, ast.Attribute) and x.func.attr in ("upper", "casefold") for x in ast.walk(n.left))
+               and isinstance(try_fold(n.comparators[0]), (str, list, tuple))]
+    if raw_cmp:
+        c.finding("parse_line:mnemonic-as-typed", "a branch is taken on the mnemonic as typed (%s)" % U(raw_cmp[0])[:50],
+                  "parse_line decides `%s` on the mnemonic field as written: a line that spells the mnemonic in lower or mixed case takes the other branch, so changing the letter case of "
+                  "a mnemonic changes how its operand is read" % U(raw_cmp[0])[:70], repo.loc(pl, raw_cmp[0]))
     # the operand field reaches the operand classes as written: symbols are case sensitive
     pl_flat_ = _fl3(repo, pl, depth=2)
     opvars = {U(n.targets[0]) for n in ast.walk(pl_flat_) if isinstance(n, ast.Assign) and isinstance(n.targets[0], ast.Name) and re.search(r"group\('operands'\)", U(n.value))}
@@ -1630,7 +1699,7 @@ def txt1(ctx, c):
     if sym and exp:
         srx, erx = re.compile(sym), re.compile(exp)
         # one probe per kind of name; a finding is keyed by the kind, not by the probe list
-        kinds = [("letters", "AB"), ("letters and digits", "A1"), ("a leading digit", "1ST"), ("an at sign", "A@B"), ("an underscore", "A_B"), ("a non-ASCII letter", "ÉT")]
+        kinds = [("letters", "AB"), ("lower-case letters", "ab"), ("mixed case", "Loop"), ("letters and digits", "A1"), ("a leading digit", "1ST"), ("an at sign", "A@B"), ("an underscore", "A_B"), ("a non-ASCII letter", "ÉT")]
         for kind, p_ in kinds:
             lab = bool(rx.match(p_ + " NOP\n") and rx.match(p_ + " NOP\n").group("label") == p_)
             symok = bool(srx.match(p_))
